@@ -2,8 +2,8 @@
  * Real code: reader.c (included), metadata.c, varint.c, fixed.c, block.c, source.c, iter.c (linked).
  * Environment (assumed): fstat yields any st_size; mmap returns an object of exactly st_size bytes with
  * arbitrary content, or MAP_FAILED; open may fail; getenv returns NULL or a short string. */
-#include "/repo/mtbl/block.c"
-#include "/repo/mtbl/reader.c"
+#include "mtbl/block.c"
+#include "mtbl/reader.c"
 #include "spec/ghost.h"
 
 static off_t vg_file_size;
